@@ -10,7 +10,7 @@ from bounded.common import parse, entities, jdump
 # identifier forms: (text as written, text without its one pair of outer delimiters)
 FORMS = [("users", "users"), ("Order_Items", "Order_Items"), ("UPPER", "UPPER"), ("a1", "a1"), ('"Quoted"', "Quoted"), ('"mixed Case"', "mixed Case"),
          ("`tick`", "tick"), ("[Bracket]", "Bracket"), ('"[x]"', "[x]"), ("[dbo_1]", "dbo_1"), ('"a.b"', "a.b"), ("x", "x"), ("`Y`", "Y"), ("_lead", "_lead"),
-         ("tbl$1", "tbl$1"), ('"select"', "select"), ("emp#", "emp#")]
+         ("tbl$1", "tbl$1"), ('"select"', "select"), ("emp#", "emp#"), ("collateral", "collateral"), ("primary_flag", "primary_flag"), ("index_no", "index_no")]
 # keyword-shaped column names (the statement: every grammar keyword except the clause-opening words is accepted as a column name)
 EXCLUDED = {"LIKE", "CONSTRAINT", "FOREIGN", "PRIMARY", "INDEX", "UNIQUE", "CHECK", "WITH", "CLUSTER", "BY", "KEY", "COLLATE", "AUTOINCREMENT", "AUTO_INCREMENT"}
 
